@@ -27,7 +27,7 @@ pub fn display_inner(ast: &DeriveInput) -> syn::Result<TokenStream> {
 
         if let Some(..) = variant_properties.transparent {
             let arm = super::extract_single_field_variant_and_then(name, variant, |tok| {
-                quote! { ::core::fmt::Display::fmt(#tok, f) }
+                quote! { ::core::fmt::Display::fmt(#tok, __strum_fmt) }
             })
             .map_err(|_| non_single_field_variant_error("transparent"))?;
 
@@ -73,7 +73,7 @@ pub fn display_inner(ast: &DeriveInput) -> syn::Result<TokenStream> {
 
         if variant_properties.to_string.is_none() && variant_properties.default.is_some() {
             let arm = super::extract_single_field_variant_and_then(name, variant, |tok| {
-                quote! { ::core::fmt::Display::fmt(#tok, f)}
+                quote! { ::core::fmt::Display::fmt(#tok, __strum_fmt)}
             })
             .map_err(|_| {
                 syn::Error::new_spanned(
@@ -90,7 +90,7 @@ pub fn display_inner(ast: &DeriveInput) -> syn::Result<TokenStream> {
             Fields::Named(ref field_names) => {
                 let used_vars = capture_format_string_idents(&output)?;
                 if used_vars.is_empty() {
-                    quote! { #name::#ident #params => ::core::fmt::Display::fmt(#output, f) }
+                    quote! { #name::#ident #params => ::core::fmt::Display::fmt(#output, __strum_fmt) }
                 } else {
                     // Create args like 'name = name, age = age' for format macro
                     let args: Punctuated<_, Token!(,)> = field_names
@@ -109,7 +109,7 @@ pub fn display_inner(ast: &DeriveInput) -> syn::Result<TokenStream> {
 
                     quote! {
                         #[allow(unused_variables)]
-                        #name::#ident #params => ::core::fmt::Display::fmt(&format_args!(#output, #args), f)
+                        #name::#ident #params => ::core::fmt::Display::fmt(&format_args!(#output, #args), __strum_fmt)
                     }
                 }
             }
@@ -122,7 +122,7 @@ pub fn display_inner(ast: &DeriveInput) -> syn::Result<TokenStream> {
                     ));
                 }
                 if used_vars.is_empty() {
-                    quote! { #name::#ident #params => ::core::fmt::Display::fmt(#output, f) }
+                    quote! { #name::#ident #params => ::core::fmt::Display::fmt(#output, __strum_fmt) }
                 } else {
                     let args: Punctuated<_, Token!(,)> = unnamed_fields
                         .unnamed
@@ -135,7 +135,7 @@ pub fn display_inner(ast: &DeriveInput) -> syn::Result<TokenStream> {
                         .collect();
                     quote! {
                         #[allow(unused_variables)]
-                        #name::#ident #params => ::core::fmt::Display::fmt(&format_args!(#output, #args), f)
+                        #name::#ident #params => ::core::fmt::Display::fmt(&format_args!(#output, #args), __strum_fmt)
                     }
                 }
             }
@@ -148,7 +148,7 @@ pub fn display_inner(ast: &DeriveInput) -> syn::Result<TokenStream> {
                     ));
                 }
 
-                quote! { #name::#ident #params => ::core::fmt::Display::fmt(#output, f) }
+                quote! { #name::#ident #params => ::core::fmt::Display::fmt(#output, __strum_fmt) }
             }
         };
 
@@ -161,7 +161,9 @@ pub fn display_inner(ast: &DeriveInput) -> syn::Result<TokenStream> {
 
     Ok(quote! {
         impl #impl_generics ::core::fmt::Display for #name #ty_generics #where_clause {
-            fn fmt(&self, f: &mut ::core::fmt::Formatter) -> ::core::result::Result<(), ::core::fmt::Error> {
+            // The named fields of a variant are bound by their own names in the arms, so the
+            // formatter must not be called `f` (or any other plausible field name).
+            fn fmt(&self, __strum_fmt: &mut ::core::fmt::Formatter) -> ::core::result::Result<(), ::core::fmt::Error> {
                 match *self {
                     #(#arms),*
                 }
